@@ -38,6 +38,14 @@ theorem validate_if_conds_src : validate_if_conds = validateIfCondsExpected := b
 /-- `readMsg` unpacks exactly the bytes that were read (the fix for the buffer-residue defect). -/
 theorem read_msg_unpack_arg_src : read_msg_unpack_arg = "buf[:n]" := by decide
 theorem min_dns_message_size_src : min_dns_message_size = "12 + 5" := by decide
+/-- `readValidMsg`: after a successful read the only thing between the parsed message and the
+caller is `validatePlainResponse(req, resp)`: no branch on flags, transport or network mode. -/
+theorem read_valid_msg_if_conds_src : read_valid_msg_if_conds = "err != nil | err != nil" := by decide
+theorem read_valid_msg_validate_args_src : read_valid_msg_validate_args = "req, resp" := by decide
+/-- `exchangeUDP` / `Exchange`: the only decisions are TCP-only, error, and the fallback flag. -/
+theorem exchange_udp_if_conds_src :
+    exchange_udp_if_conds = "u.network == NetworkTCP | err != nil" := by decide
+theorem exchange_if_conds_src : exchange_if_conds = "u.timeout > 0 | !fallbackToTCP" := by decide
 /-- `exchangeUDP`: TCP after a non-connection error or a truncated reply (unless UDP-only). -/
 theorem udp_fallback_on_error_src : udp_fallback_on_error = "!isExpectedConnErr(err)" := by decide
 def udpTruncExpected : String := "u.network != NetworkUDP && resp != nil && resp.Truncated"
